@@ -319,7 +319,7 @@ theorem step_header_begin (id role : Nat) (flags : UInt8) (body5 padb : Bytes) (
     (rest : Bytes) (mc : Nat) (hid : 0 < id ∧ id < 65536) (hrole : roleValid role = true)
     (hb : body5.length = 5) (hp : padb.length < 256) :
     step .header (Rec.ser { rtype := 1, id := id, content := toBe16 role ++ [flags] ++ body5,
-                           pad := padb, reserved := res } ++ rest) mc =
+                            pad := padb, reserved := res } ++ rest) mc =
       (.cont (padb ++ rest)
         (.params { req := Request.new id { role := role, flags := flags }, buffer := [] } 0 padb.length),
         []) := by
@@ -427,5 +427,417 @@ theorem step_params_done (i : Inner) (padb : Bytes) (res : UInt8) (rest : Bytes)
   simp only [step_params_zero, recPhase, tryHead_ser_valid (.par i) r hwf rest hv, ser_drop8]
   subst hr
   simp [RT.params]
+
+/-! ## 5. What a run over a strict prefix of one record leaves -/
+
+/-- `rem` is the end of the undecoded tail of a prefix `T` of the Params stream `S`
+(`pre` is the part of that tail already moved to the side buffer). -/
+def InStream (S rem : Bytes) : Prop := ∃ T pre, T <+: S ∧ (NV.all T).2 = pre ++ rem
+
+/-- `rem` is the undecodable tail of a strict prefix of the body of a management `GetValues`
+record among `recs`. -/
+def InNoise (recs : List Rec) (rem : Bytes) : Prop :=
+  ∃ r ∈ recs, IsMgmtGetValues r ∧
+    ∃ d, d <+: r.content ∧ d.length < r.content.length ∧ rem = (NV.all d).2
+
+def RemP (S : Bytes) (recs : List Rec) (rem : Bytes) : Prop :=
+  rem.length < 16 ∨ InStream S rem ∨ InNoise recs rem
+
+theorem RemP.cons {S : Bytes} {r : Rec} {rs : List Rec} {rem : Bytes} (h : RemP S rs rem) :
+    RemP S (r :: rs) rem := by
+  rcases h with h | h | ⟨x, hx, h⟩
+  · exact Or.inl h
+  · exact Or.inr (Or.inl h)
+  · exact Or.inr (Or.inr ⟨x, by simp [hx], h⟩)
+
+theorem RemP.nil {S : Bytes} {rs : List Rec} {rem : Bytes} (h : rem = []) : RemP S rs rem :=
+  Or.inl (by rw [h]; simp)
+
+theorem pre_rem (o : Bytes) (res : Out) : (pre o res).rem = res.rem := rfl
+theorem pre_st (o : Bytes) (res : Out) : (pre o res).st = res.st := rfl
+
+/-- Body and padding of a noise record cut short. -/
+theorem after_partial {c : Ctx} (hd : ∀ r, c ≠ .dn r) {r : Rec} {X r' t : Bytes} {s1 : State}
+    (mc : Nat) (ha : After c r X s1) (hX : X = r' ++ t) (ht : t ≠ []) :
+    (run s1 r' mc).rem = [] ∨
+      (IsMgmtGetValues r ∧ ∃ d, d <+: r.content ∧ d.length < r.content.length ∧
+        (run s1 r' mc).rem = (NV.all d).2) := by
+  obtain ⟨body, hb, hs | ⟨hg, hbody, hs⟩⟩ := ha
+  · left
+    subst hs
+    apply run_skip_partial
+    have := length_lt_of_append_ne (hX.symm.trans hb) ht
+    simpa using this
+  · subst hbody hs
+    rcases run_values_partial c hd mc (hb.symm.trans hX) ht with h0 | h1
+    · exact Or.inl h0
+    · exact Or.inr ⟨hg, h1⟩
+
+theorem noise_partial {c : Ctx} (hd : ∀ r, c ≠ .dn r) {st : State} (hw : WFState st)
+    {r : Rec} {w t : Bytes} (mc : Nat)
+    (hbrk : ∀ r s o', step st w mc = (.brk r s, o') → s.isFinal = false → r.length < 16)
+    (hstep : ∃ X s1 o, step st (r.ser ++ []) mc = (.cont (X ++ []) s1, o) ∧ After c r X s1)
+    (h : w ++ t = r.ser) (ht : t ≠ []) (hnf : (run st w mc).st.isFinal = false)
+    (S : Bytes) (rs : List Rec) : RemP S (r :: rs) (run st w mc).rem := by
+  obtain ⟨X, s1, o, hs, ha⟩ := hstep
+  simp only [List.append_nil] at hs
+  rw [← h] at hs
+  rcases run_partial hw hbrk hs hnf with hlt | ⟨r', _, hX, hrem, _⟩
+  · exact Or.inl hlt
+  · rw [hrem]
+    rcases after_partial hd mc ha hX ht with h0 | ⟨hg, d, hd1, hd2, hd3⟩
+    · exact RemP.nil h0
+    · exact Or.inr (Or.inr ⟨r, by simp, hg, d, hd1, hd2, hd3⟩)
+
+theorem header_noise_partial (r : Rec) (hn : IdleNoise r) {w t : Bytes} (mc : Nat)
+    (h : w ++ t = r.ser) (ht : t ≠ []) (hnf : (run .header w mc).st.isFinal = false)
+    (S : Bytes) (rs : List Rec) : RemP S (r :: rs) (run .header w mc).rem :=
+  noise_partial (c := .hdr) (by intro r; simp) (st := .header) trivial mc (header_hbrk w mc)
+    (step_header_noise r hn [] mc) h ht hnf S rs
+
+theorem params_noise_partial (i : Inner) (hi : InnerOK i) (r : Rec) (hn : ParamsNoise i.req.id r)
+    {w t : Bytes} (mc : Nat) (h : w ++ t = r.ser) (ht : t ≠ [])
+    (hnf : (run (.params i 0 0) w mc).st.isFinal = false) (S : Bytes) (rs : List Rec) :
+    RemP S (r :: rs) (run (.params i 0 0) w mc).rem :=
+  noise_partial (c := .par i) (by intro r; simp) (wf_params_zero hi) mc (params_hbrk hi w mc)
+    (step_params_noise i r hn [] mc) h ht hnf S rs
+
+/-- A BeginRequest record cut short: fewer than 16 bytes are held back, or (inside its padding)
+nothing. -/
+theorem header_begin_partial (id role : Nat) (flags : UInt8) (body5 padb : Bytes) (res : UInt8)
+    {w t : Bytes} (mc : Nat) (hid : 0 < id ∧ id < 65536) (hrole : roleValid role = true)
+    (hb : body5.length = 5) (hp : padb.length < 256)
+    (h : w ++ t = Rec.ser { rtype := 1, id := id, content := toBe16 role ++ [flags] ++ body5,
+                             pad := padb, reserved := res })
+    (ht : t ≠ []) (hnf : (run .header w mc).st.isFinal = false) :
+    (run .header w mc).rem.length < 16 := by
+  have hs := step_header_begin id role flags body5 padb res [] mc hid hrole hb hp
+  simp only [List.append_nil] at hs
+  rw [← h] at hs
+  rcases run_partial (st := .header) trivial (header_hbrk w mc) hs hnf with hlt | ⟨r', _, hX, hrem, _⟩
+  · exact hlt
+  · rw [hrem]
+    have hl : r'.length < 0 + padb.length := by
+      have := length_lt_of_append_ne hX.symm ht; omega
+    rcases run_params_partial (i := { req := Request.new id { role := role, flags := flags }, buffer := [] })
+      mc hl with h0 | ⟨h1, _⟩
+    · rw [h0]; simp
+    · omega
+
+/-- The closing empty Params record cut short. -/
+theorem params_done_partial (i : Inner) (hi : InnerOK i) (padb : Bytes) (res : UInt8)
+    {w t : Bytes} (mc : Nat) (hp : padb.length < 256) (hid : i.req.id < 65536)
+    (h : w ++ t = Rec.ser { rtype := 4, id := i.req.id, content := [], pad := padb, reserved := res })
+    (ht : t ≠ []) (hnf : (run (.params i 0 0) w mc).st.isFinal = false) :
+    (run (.params i 0 0) w mc).rem.length < 16 := by
+  have hs := step_params_done i padb res [] mc hp hid
+  simp only [List.append_nil] at hs
+  rw [← h] at hs
+  rcases run_partial (wf_params_zero hi) (params_hbrk hi w mc) hs hnf with hlt | ⟨r', _, hX, hrem, _⟩
+  · exact hlt
+  · rw [hrem]
+    have hl : r'.length < 0 + padb.length := by
+      have := length_lt_of_append_ne hX.symm ht; omega
+    rw [run_skip_partial (Ctx.dn i.req) mc hl]; simp
+
+/-- A Params record of the request cut short: what is held back is the end of the undecoded tail
+of the stream consumed so far followed by the part of the record's content seen. -/
+theorem params_chunk_partial (i : Inner) (C : Bytes) (hinv : ParamsInv [] C i) (c padb : Bytes)
+    (res : UInt8) {w t : Bytes} (mc : Nat) (hc : 0 < c.length ∧ c.length < 65536)
+    (hp : padb.length < 256) (hid : i.req.id < 65536)
+    (h : w ++ t = Rec.ser { rtype := 4, id := i.req.id, content := c, pad := padb, reserved := res })
+    (ht : t ≠ []) (hnf : (run (.params i 0 0) w mc).st.isFinal = false) (payload : Bytes) :
+    (run (.params i 0 0) w mc).rem.length < 16 ∨
+      InStream (C ++ (c ++ payload)) (run (.params i 0 0) w mc).rem := by
+  have hi := hinv.next_buffer
+  have hs := step_params_chunk i c padb res [] mc hc hp hid
+  simp only [List.append_nil] at hs
+  rw [← h] at hs
+  rcases run_partial (wf_params_zero hi) (params_hbrk hi w mc) hs hnf with hlt | ⟨r', _, hX, hrem, _⟩
+  · exact Or.inl hlt
+  · rw [hrem]
+    have hl : r'.length < c.length + padb.length := by
+      have := length_lt_of_append_ne hX.symm ht
+      simpa using this
+    rcases run_params_partial (i := i) mc hl with h0 | ⟨h1, i', k, hps, hr⟩
+    · left; rw [h0]; simp
+    · right
+      rw [hr]
+      obtain ⟨hk, hinv', _, _, hnone⟩ := parseStream_spec [] C i i' r' false k hinv hps
+      have hpre : r' <+: c :=
+        List.prefix_of_prefix_length_le ⟨t, hX.symm⟩ ⟨padb, rfl⟩ (by omega)
+      obtain ⟨z, hz⟩ := hpre
+      refine ⟨C ++ r', i'.buffer, ⟨z ++ payload, ?_⟩, ?_⟩
+      · rw [← hz]; simp only [List.append_assoc]
+      · have := all_tail_of_consumed (C := C) (m := r'.take k) (d' := r'.drop k) hinv'.2
+          (hnone rfl)
+        rwa [List.take_append_drop] at this
+
+/-! ## 6. The remainder over a prefix of the whole preamble -/
+
+theorem params_remainder {id : Nat} {payload : Bytes} {rs : List Rec} (h : ParamsRecs id payload rs)
+    (hid : id < 65536) (mc : Nat) :
+    ∀ (i : Inner) (C : Bytes), i.req.id = id → ParamsInv [] C i → ∀ w, w <+: serAll rs →
+      (run (.params i 0 0) w mc).st.isFinal = false →
+        RemP (C ++ payload) rs (run (.params i 0 0) w mc).rem := by
+  induction h with
+  | done pad res hp =>
+    intro i C hi hinv w hw hnf
+    subst hi
+    rw [serAll_cons, serAll_nil, List.append_nil] at hw
+    obtain ⟨t, ht⟩ := hw
+    by_cases hte : t = []
+    · subst hte
+      rw [List.append_nil] at ht
+      have := params_done i hinv.next_buffer pad res [] mc hp hid
+      rw [List.append_nil, ← ht] at this
+      rw [this] at hnf
+      cases hnf
+    · exact Or.inl (params_done_partial i hinv.next_buffer pad res mc hp hid ht hte hnf)
+  | @noise payload rs r hn t ih =>
+    intro i C hi hinv w hw hnf
+    subst hi
+    rw [serAll_cons] at hw
+    rcases prefix_append_cases hw with ⟨w', rfl, hw'⟩ | ⟨t', ht', hwt⟩
+    · by_cases hl : w' ≠ [] ∨ ¬ EmptyGetValues r
+      · rw [params_noise i hinv.next_buffer r hn w' mc hl] at hnf ⊢
+        rw [pre_st] at hnf
+        rw [pre_rem]
+        exact (ih i C rfl hinv w' hw' hnf).cons
+      · have hw0 : w' = [] := Classical.not_not.mp (fun hx => hl (Or.inl hx))
+        have hE : EmptyGetValues r := Classical.not_not.mp (fun hx => hl (Or.inr hx))
+        subst hw0
+        rw [List.append_nil, params_emptyGetValues_last i r hn.1 hE mc]
+        exact RemP.nil rfl
+    · exact params_noise_partial i hinv.next_buffer r hn mc hwt ht' hnf _ _
+  | @chunk payload rs c pad res hc hp t ih =>
+    intro i C hi hinv w hw hnf
+    subst hi
+    rw [serAll_cons] at hw
+    rcases prefix_append_cases hw with ⟨w', rfl, hw'⟩ | ⟨t', ht', hwt⟩
+    · obtain ⟨i1, k, hps⟩ := parseStream_ok_inv [] C i c true hinv
+      obtain ⟨hk, hok1, hrun1⟩ :=
+        params_chunk i i1 hinv.next_buffer c pad res k w' mc hc hp hid hps
+      obtain ⟨_, hinv1, hs1, _, _⟩ := parseStream_spec [] C i i1 c true k hinv hps
+      rw [hk, List.take_length] at hinv1
+      rw [hrun1] at hnf ⊢
+      have := (ih i1 (C ++ c) hs1.1 hinv1 w' hw' hnf).cons
+        (r := { rtype := 4, id := i.req.id, content := c, pad := pad, reserved := res })
+      rwa [List.append_assoc] at this
+    · rcases params_chunk_partial i C hinv c pad res mc hc hp hid hwt ht' hnf payload with h1 | h2
+      · exact Or.inl h1
+      · exact Or.inr (Or.inl h2)
+
+theorem header_remainder {p : Preamble} {recs : List Rec} (h : WellFormedPreamble p recs)
+    (mc : Nat) : ∀ w, w <+: serAll recs → (run .header w mc).st.isFinal = false →
+      RemP (p.pairs.flatMap NV.enc) recs (run .header w mc).rem := by
+  induction h with
+  | @noise rs r hn t ih =>
+    intro w hw hnf
+    rw [serAll_cons] at hw
+    rcases prefix_append_cases hw with ⟨w', rfl, hw'⟩ | ⟨t', ht', hwt⟩
+    · by_cases hl : w' ≠ [] ∨ ¬ EmptyGetValues r
+      · rw [header_noise r hn w' mc hl] at hnf ⊢
+        rw [pre_st] at hnf
+        rw [pre_rem]
+        exact (ih w' hw' hnf).cons
+      · have hw0 : w' = [] := Classical.not_not.mp (fun hx => hl (Or.inl hx))
+        have hE : EmptyGetValues r := Classical.not_not.mp (fun hx => hl (Or.inr hx))
+        subst hw0
+        rw [List.append_nil, header_emptyGetValues_last r hn.1 hE mc]
+        exact RemP.nil rfl
+    · exact header_noise_partial r hn mc hwt ht' hnf _ _
+  | @begin rs pad res body5 hb hp hid hrole hl t =>
+    intro w hw hnf
+    rw [serAll_cons] at hw
+    rcases prefix_append_cases hw with ⟨w', rfl, hw'⟩ | ⟨t', ht', hwt⟩
+    · rw [header_begin p.id p.role p.flags body5 pad res w' mc hid hrole hb hp] at hnf ⊢
+      have := (params_remainder t hid.2 mc
+        { req := Request.new p.id { role := p.role, flags := p.flags }, buffer := [] } [] rfl
+        (paramsInv_init [] _ rfl rfl) w' hw' hnf).cons
+        (r := { rtype := 1, id := p.id, content := toBe16 p.role ++ [p.flags] ++ body5, pad := pad,
+                reserved := res })
+      rwa [List.nil_append] at this
+    · exact Or.inl (header_begin_partial p.id p.role p.flags body5 pad res mc hid hrole hb hp hwt ht' hnf)
+
+/-! ## 7. `remainder_bound` -/
+
+/-- `rem` is the end of an incomplete pair of `pairs`: with what precedes it (`pre`, the part
+already in the side buffer) it forms a *strict* prefix of the pair's encoding. -/
+def InPair (pairs : List (Bytes × Bytes)) (rem : Bytes) : Prop :=
+  ∃ q ∈ pairs, ∃ pre, pre ++ rem <+: NV.enc q ∧ (pre ++ rem).length < (NV.enc q).length
+
+theorem wf_pairs_valid {p : Preamble} {recs : List Rec} (h : WellFormedPreamble p recs) :
+    ∀ q ∈ p.pairs, q.1.length ≤ maxVal ∧ q.2.length ≤ maxVal := by
+  induction h with
+  | noise r hn t ih => exact ih
+  | «begin» pad res body5 hb hp hid hrole hl t => exact hl
+
+/-- **Remainder bound.**  Driving the parser over a prefix `w` of a well-formed preamble's wire
+bytes without reaching a final state leaves fewer than 16 bytes, or the end of an incomplete pair
+of the request, or the undecodable tail of a strict prefix of a management `GetValues` body. -/
+theorem remainder_bound {p : Preamble} {recs : List Rec} (h : WellFormedPreamble p recs)
+    {w : Bytes} (hw : w <+: serAll recs) (mc : Nat)
+    (hnf : (run .header w mc).st.isFinal = false) :
+    (run .header w mc).rem.length < 16 ∨ InPair p.pairs (run .header w mc).rem ∨
+      InNoise recs (run .header w mc).rem := by
+  rcases header_remainder h mc w hw hnf with h1 | ⟨T, pre, hT, hall⟩ | h3
+  · exact Or.inl h1
+  · rcases all_prefix_stream p.pairs (wf_pairs_valid h) T hT with h0 | ⟨q, hq, hp1, hp2⟩
+    · left
+      rw [hall] at h0
+      rw [(List.append_eq_nil_iff.mp h0).2]; simp
+    · rw [hall] at hp1 hp2
+      exact Or.inr (Or.inl ⟨q, hq, pre, hp1, hp2⟩)
+  · exact Or.inr (Or.inr h3)
+
+/-- Before the last byte of the preamble has been seen the loop never ends in a final state. -/
+theorem prefix_not_final {p : Preamble} {recs : List Rec} (h : WellFormedPreamble p recs)
+    {w t : Bytes} (hw : w ++ t = serAll recs) (ht : t ≠ []) (mc : Nat) :
+    (run .header w mc).st.isFinal = false := by
+  cases hf : (run .header w mc).st.isFinal with
+  | false => rfl
+  | true =>
+    exfalso
+    have hs := run_split (st := .header) trivial w t mc ht
+    have h1 := C01.C01_oneshot h [] mc
+    rw [List.append_nil] at h1
+    rw [hw, h1, run_final _ _ hf] at hs
+    have := congrArg Out.rem hs
+    simp only at this
+    exact ht (List.append_eq_nil_iff.mp this.symm).2
+
+/-! ## 8. Length form -/
+
+/-- Every undecodable tail of a strict prefix of a management `GetValues` body among `recs` is
+shorter than `M`. -/
+def NoiseFits (M : Nat) (recs : List Rec) : Prop :=
+  ∀ r ∈ recs, IsMgmtGetValues r → ∀ d, d <+: r.content → d.length < r.content.length →
+    (NV.all d).2.length < M
+
+/-- Syntactic sufficient condition: every management `GetValues` record among `recs` has a body of
+at most `L + 8` bytes, or a body that is a sequence of encoded pairs each with
+`name.len + value.len ≤ L`. -/
+def NoiseSmall (L : Nat) (recs : List Rec) : Prop :=
+  ∀ r ∈ recs, IsMgmtGetValues r →
+    r.content.length ≤ L + 8 ∨
+      ∃ qs : List (Bytes × Bytes),
+        (∀ q ∈ qs, q.1.length ≤ maxVal ∧ q.2.length ≤ maxVal ∧ q.1.length + q.2.length ≤ L) ∧
+          r.content = qs.flatMap NV.enc
+
+theorem enc_length_le (q : Bytes × Bytes) : (NV.enc q).length ≤ 8 + q.1.length + q.2.length := by
+  obtain ⟨n, v⟩ := q
+  rw [C16.enc_length, C15.encode_length, C15.encode_length]
+  simp only
+  split <;> split <;> omega
+
+theorem enc_length_ge (q : Bytes × Bytes) : 2 + q.1.length + q.2.length ≤ (NV.enc q).length := by
+  obtain ⟨n, v⟩ := q
+  rw [C16.enc_length, C15.encode_length, C15.encode_length]
+  simp only
+  split <;> split <;> omega
+
+theorem noiseFits_mono {M M' : Nat} {recs : List Rec} (h : NoiseFits M recs) (hm : M ≤ M') :
+    NoiseFits M' recs :=
+  fun r hr hg d hd hl => Nat.lt_of_lt_of_le (h r hr hg d hd hl) hm
+
+/-- Bodies no longer than `M` fit (the side condition of `C01.C01_full`). -/
+theorem noiseFits_of_content {M : Nat} {recs : List Rec}
+    (h : ∀ r ∈ recs, r.rtype.toNat = RT.getValues → r.id = 0 → r.content.length ≤ M) :
+    NoiseFits M recs := by
+  intro r hr hg d _ hl
+  have := all_rest_length_le d
+  have := h r hr hg.1 hg.2
+  omega
+
+theorem noiseSmall_fits {L : Nat} {recs : List Rec} (h : NoiseSmall L recs) :
+    NoiseFits (L + 8) recs := by
+  intro r hr hg d hd hl
+  rcases h r hr hg with h1 | ⟨qs, hqs, hc⟩
+  · have := all_rest_length_le d
+    omega
+  · rw [hc] at hd
+    rcases all_prefix_stream qs (fun q hq => ⟨(hqs q hq).1, (hqs q hq).2.1⟩) d hd with h0 | ⟨q, hq, _, h2⟩
+    · rw [h0]; simp
+    · have := enc_length_le q
+      have := (hqs q hq).2.2
+      omega
+
+/-- **Remainder bound, length form.**  If every pair's encoding is at most `M` bytes, the noise
+bodies fit `M`, and `M ≥ 16`, the unconsumed remainder is always shorter than `M`. -/
+theorem remainder_lt {p : Preamble} {recs : List Rec} (h : WellFormedPreamble p recs)
+    {M : Nat} (h16 : 16 ≤ M) (hpairs : ∀ q ∈ p.pairs, (NV.enc q).length ≤ M)
+    (hnoise : NoiseFits M recs) {w : Bytes} (hw : w <+: serAll recs) (mc : Nat)
+    (hnf : (run .header w mc).st.isFinal = false) : (run .header w mc).rem.length < M := by
+  rcases remainder_bound h hw mc hnf with h1 | ⟨q, hq, pre, _, h2⟩ | ⟨r, hr, hg, d, hd1, hd2, hd3⟩
+  · omega
+  · have := hpairs q hq
+    simp only [List.length_append] at h2
+    omega
+  · rw [hd3]; exact hnoise r hr hg d hd1 hd2
+
+/-- The same with the coarse bound of the documentation: `name.len + value.len ≤ L` for every pair
+of the request and `NoiseSmall L` give a remainder of at most `max 15 (L + 7)` bytes. -/
+theorem remainder_le_max {p : Preamble} {recs : List Rec} (h : WellFormedPreamble p recs)
+    {L : Nat} (hpairs : ∀ q ∈ p.pairs, q.1.length + q.2.length ≤ L) (hnoise : NoiseSmall L recs)
+    {w : Bytes} (hw : w <+: serAll recs) (mc : Nat)
+    (hnf : (run .header w mc).st.isFinal = false) :
+    (run .header w mc).rem.length ≤ max 15 (L + 7) := by
+  have := remainder_lt h (M := max 16 (L + 8)) (by omega)
+    (fun q hq => by have := enc_length_le q; have := hpairs q hq; omega)
+    (noiseFits_mono (noiseSmall_fits hnoise) (by omega)) hw mc hnf
+  omega
+
+/-! ## Non-vacuity: the concrete preamble of `Props/C01.lean` -/
+namespace Examples
+open Fcgi.C01.Example
+
+theorem len_maxConns : (NV.enc (Vars.nameMaxConns, [])).length = 16 := by decide +kernel
+theorem len_mpxsConns : (NV.enc (Vars.nameMpxsConns, [])).length = 17 := by decide +kernel
+
+/-- Every record body of the example has at most 17 bytes. -/
+theorem recs_content_le : ∀ r ∈ recs, r.content.length ≤ 17 := by
+  intro r hr
+  simp only [recs, List.mem_cons, List.not_mem_nil, or_false] at hr
+  have h16 := len_maxConns
+  have h17 := len_mpxsConns
+  rcases hr with rfl | rfl | rfl | rfl | rfl | rfl <;>
+    simp only [List.length_cons, List.length_nil] <;> omega
+
+theorem recs_noise_fits {M : Nat} (hM : 17 ≤ M) : NoiseFits M recs :=
+  noiseFits_of_content (fun r hr _ _ => Nat.le_trans (recs_content_le r hr) hM)
+
+theorem recs_noise_small {L : Nat} (hL : 9 ≤ L) : NoiseSmall L recs :=
+  fun r hr _ => Or.inl (by have := recs_content_le r hr; omega)
+
+/-- The single pair `("a", "b")` encodes to 4 bytes. -/
+theorem pre_pairs_enc : ∀ q ∈ C01.Example.pre.pairs, (NV.enc q).length = 4 := by
+  intro q hq
+  simp only [C01.Example.pre, List.mem_singleton] at hq
+  subst hq; decide
+
+/-- `remainder_bound` / `remainder_lt` applied: over any prefix of the 86 example bytes the loop
+never holds back 24 bytes or more. -/
+example {w : Bytes} (hw : w <+: serAll recs) (mc : Nat)
+    (hnf : (run .header w mc).st.isFinal = false) : (run .header w mc).rem.length < 24 :=
+  remainder_lt recs_wf (by omega) (fun q hq => by rw [pre_pairs_enc q hq]; omega)
+    (recs_noise_fits (by omega)) hw mc hnf
+
+example {w : Bytes} (hw : w <+: serAll recs) (mc : Nat)
+    (hnf : (run .header w mc).st.isFinal = false) :
+    (run .header w mc).rem.length < 16 ∨ InPair C01.Example.pre.pairs (run .header w mc).rem ∨
+      InNoise recs (run .header w mc).rem := remainder_bound recs_wf hw mc hnf
+
+/-- Before the last of the example's bytes the loop is never final. -/
+example (mc : Nat) : ∀ k, k < (serAll recs).length →
+    (run .header ((serAll recs).take k) mc).st.isFinal = false := by
+  intro k hk
+  refine prefix_not_final recs_wf (List.take_append_drop k _) ?_ mc
+  intro hx
+  have := congrArg List.length hx
+  simp only [List.length_drop, List.length_nil] at this
+  omega
+
+end Examples
 
 end Fcgi.Req
